@@ -36,6 +36,8 @@ type Oblig struct {
 }
 
 type Engine struct {
+	specCtx  string   // "loop"/"call" while clauses attached to code locations are evaluated (they may name locals)
+	stale    []string // such clauses that name a local the code no longer has
 	condAssume bool // assume() is conditional on the current path condition (set while a native model runs)
 	w         *World
 	unit      *ssa.Function
@@ -621,6 +623,9 @@ func (f *frame) loopClauses(li *loopInfo, kind string) []*Clause {
 
 func (f *frame) enterLoop(li *loopInfo, b *ssa.BasicBlock, pc0 string, h *Heap, preds []*ssa.BasicBlock, conds []string) string {
 	e := f.e
+	prevCtx := e.specCtx
+	e.specCtx = "loop"
+	defer func() { e.specCtx = prevCtx }()
 	// 1. values of the phis on entry
 	entryPhi := map[*ssa.Phi]Val{}
 	for _, ins := range b.Instrs {
@@ -737,6 +742,9 @@ func (f *frame) loopPos(li *loopInfo) token.Pos {
 
 func (f *frame) backEdge(li *loopInfo, from *ssa.BasicBlock, pc string, h *Heap) {
 	e := f.e
+	prevCtx := e.specCtx
+	e.specCtx = "loop"
+	defer func() { e.specCtx = prevCtx }()
 	if li == nil || li.phiAtHead == nil {
 		return
 	}
